@@ -3,10 +3,12 @@ import Driver.CmdC18
 import Driver.CmdC17
 import Driver.CmdC12
 import Driver.CmdC15
+import Driver.CmdC16
 /-
   Driver.Extra — per-property command handlers living in their own files (`Driver/CmdCxx.lean`).
   Each returns `none` for commands that are not its own.
 -/
 open Lean
 
-def extraHandlers : List (String → Json → Option (Except String Json)) := [handleC18, handleC17, handleC12, handleC15]
+def extraHandlers : List (String → Json → Option (Except String Json)) :=
+  [handleC18, handleC17, handleC12, handleC15, handleC16]
